@@ -1085,7 +1085,8 @@ class Node:
         peer = self._find_connection_peer(conn)
         if peer:
             peer.statistics.add_processed_req_time(message.name, process_time)
-            if hasattr(message, "result_code"):
+            # answers that carry an Experimental-Result only have no result code
+            if getattr(message, "result_code", None) is not None:
                 peer.statistics.add_sent_result_code(message.result_code)
 
     def _update_peer_counters(self, conn: PeerConnection,
